@@ -2,22 +2,22 @@ package main
 
 import (
 	"fmt"
-	"os"
+	"strings"
+	"time"
 
+	"github.com/onflow/cadence/parser"
 	"github.com/onflow/cadence/parser/lexer"
 )
 
 func main() {
-	for _, s := range os.Args[1:] {
-		ts, err := lexer.Lex([]byte(s), nil)
-		fmt.Printf("%q err=%v\n", s, err)
-		for {
-			t := ts.Next()
-			fmt.Printf("   %-14s %v-%v\n", t.Type, t.StartPos, t.EndPos)
-			if t.Type == lexer.TokenEOF {
-				break
-			}
-		}
+	for _, n := range []int{256, 4096, 16384} {
+		src := []byte(strings.Repeat("let x = a\n", n))
+		t0 := time.Now()
+		ts, _ := lexer.Lex(src, nil)
+		d := time.Since(t0)
 		ts.Reclaim()
+		t0 = time.Now()
+		parser.ParseProgram(nil, src, parser.Config{})
+		fmt.Println(n, "lex", d, "parse", time.Since(t0))
 	}
 }
